@@ -141,6 +141,18 @@ claim("C19", "exploration",
       "partition the reference rows.  Exhaustive within the bounds, sampled beyond.",
       TB + " A deterministic threshold classifier and margin function stand for the user's model.", "DESIGN.md 4 (C19)")
 
+claim("C20", "exploration",
+      "runtime monitoring: icontract postconditions (type preserved, input unchanged, new object) on every injector call + "
+      "cell-by-cell frame/effect oracle + numpy RNG tap for the resampling and random-walk injectors; all windows of small data "
+      "sets enumerated",
+      "For every injector and both containers, all windows 0 <= from <= to <= n of small data sets (n <= 12) and random windows "
+      "of larger ones are applied to the real injector: icontract postconditions guard type / aliasing / input mutation, the "
+      "harness compares shape, labels, every cell outside window x targeted columns, and the documented effect inside (exchange "
+      "and involution, class merge, shift by shift_factor x (alpha + window mean), random walk from x0 with the logged steps, "
+      "resampled rows = the logged draws from the window with exactly the requested per-class probability mass).  Exhaustive "
+      "over windows of the small sets, sampled otherwise.",
+      TB + " Arithmetic injectors are driven with floating columns only.", "DESIGN.md 4 (C20)")
+
 NOT_YET = "check not built yet in this revision of /verif (planned: see DESIGN.md section 4); nothing is claimed for it"
 
 
